@@ -313,8 +313,388 @@ def main(path):
     print(f"no native replay for obligation kind {kind!r}")
     print("NOT-REPRODUCED")
 
+# ------------------------------------------------------------------ xcheck mode (pyvc/xcheck.py)
+class XForbidden(BaseException):
+    """the real code tried something the cross-check does not allow (writing files, processes, sockets, stdin)"""
+
+
+class XTimeout(BaseException):
+    pass
+
+
+class _XAllInterfaces:
+    """zope: IFoo.providedBy(stand-in): on our side that is whatever the property module's model of `providedBy` says
+    (a ghost field of the collaborator, ...), which the stand-in cannot know: the run is abandoned"""
+    extends = None
+
+    def __call__(self, iface):
+        raise XForbidden("modelled-collaborator:providedBy")
+
+    def isOrExtends(self, iface):
+        raise XForbidden("modelled-collaborator:providedBy")
+
+
+class XFake:
+    """stand-in for a collaborator / opaque token: inert; a call on it is recorded (and returns None)"""
+    calls = []
+    __providedBy__ = __provides__ = _XAllInterfaces()
+
+    def __init__(self, name, opaque=False):
+        object.__setattr__(self, "_xname", name)
+        object.__setattr__(self, "_xopaque", opaque)
+
+    def __getattr__(self, attr):
+        if attr.startswith("__") and attr.endswith("__"):
+            raise AttributeError(attr)
+        name = object.__getattribute__(self, "_xname")
+
+        if MODELLED & {f"{name}.{attr}", f"*.{attr}", f"{name}.*"}:
+            # this collaborator method has a behavioural model on our side (not the recording default): a stand-in
+            # that returns None is not what the symbolic path assumed
+            raise XForbidden("modelled-collaborator:%s.%s" % (name, attr))
+
+        def rec(*a, **kw):
+            XFake.calls.append({"on": name, "m": attr, "nkw": len(kw),
+                                "args": [dict(zip(("ok", "v"), xcanon(x))) for x in a]})
+            return None
+        return rec
+
+    def __call__(self, *a, **kw):
+        name = object.__getattribute__(self, "_xname")
+        if object.__getattribute__(self, "_xopaque"):
+            # an opaque callable handed in from outside: the event is named after it and carries the callable first
+            XFake.calls.append({"on": "callback", "m": name, "nkw": len(kw),
+                                "args": [{"ok": False, "v": None}] + [dict(zip(("ok", "v"), xcanon(x))) for x in a]})
+            return None
+        XFake.calls.append({"on": name, "m": "__call__", "nkw": len(kw),
+                            "args": [dict(zip(("ok", "v"), xcanon(x))) for x in a]})
+        return None
+
+    def __conform__(self, iface):
+        return self           # zope adapters IFoo(x) are the identity on our side (dropped syntax)
+
+    def __repr__(self):
+        return "<XFake %s>" % object.__getattribute__(self, "_xname")
+
+
+class XDropped:
+    """self._timing and friends: calls the extraction drops (DROPPED in pyvc/runner.py)"""
+
+    def __getattr__(self, attr):
+        if attr.startswith("__") and attr.endswith("__"):
+            raise AttributeError(attr)
+        return lambda *a, **kw: XDropped()
+
+    def __enter__(self):
+        return self
+
+    def __exit__(self, *a):
+        return False
+
+
+class XSeq(list):
+    """`seq[T]` is list or deque on our side: the native value answers to both interfaces"""
+
+    def popleft(self):
+        if not self:
+            raise IndexError("pop from an empty deque")
+        return self.pop(0)
+
+    def appendleft(self, x):
+        self.insert(0, x)
+
+    def extendleft(self, xs):
+        for x in xs:
+            self.insert(0, x)
+
+    def rotate(self, n=1):
+        if self:
+            n = n % len(self)
+            self[:] = self[-n:] + self[:-n] if n else self[:]
+
+
+REAL_CLASSES = set()
+MACHINES = {}
+
+
+def _machine(cls):
+    for k in cls.__mro__:
+        for v in vars(k).values():
+            if type(v).__name__ == "MethodicalMachine":
+                return k, v
+    return None, None
+
+
+def xset_state(o, cls, idx):
+    """put a real Automat machine into the state the model chose (index into the states in source order)"""
+    k, mm = _machine(cls)
+    names = MACHINES.get(k.__name__) if k is not None else None
+    if mm is None or names is None or not isinstance(idx, int) or not 0 <= idx < len(names):
+        raise LookupError("machine state")
+    from automat._core import Transitioner
+    object.__setattr__(o, mm._symbol, Transitioner(mm._automaton, getattr(k, names[idx])))
+
+
+def xget_state(o, cls):
+    k, mm = _machine(cls)
+    if mm is None:
+        return None
+    t = getattr(o, mm._symbol, None)
+    st = t._state if t is not None else mm._automaton.initialState
+    return st.method.__name__
+
+
+MODELLED = set()
+INPUTS_RECORDED = [False]
+_xclasses = {}
+
+
+def xclass(cls):
+    """when the property treats Automat inputs as boundary events (reg.input_as_boundary), so does the native run:
+    the inputs of every real object it builds are replaced by recorders that return None"""
+    if not INPUTS_RECORDED[0]:
+        return cls
+    if cls not in _xclasses:
+        def recorder(nm):
+            def rec(self, *a, **kw):
+                XFake.calls.append({"on": cls.__name__, "m": nm, "nkw": len(kw),
+                                    "args": [dict(zip(("ok", "v"), xcanon(x))) for x in a]})
+                return None
+            return rec
+        over = {nm: recorder(nm) for k in cls.__mro__ for nm, v in vars(k).items()
+                if type(v).__name__ == "MethodicalInput"}
+        _xclasses[cls] = type(cls.__name__, (cls,), over) if over else cls
+    return _xclasses[cls]
+
+
+def xlookup(name):
+    """a class by bare name: the target's module first, then every loaded module of the repository package"""
+    o = NS.get(name)
+    if o is not None:
+        return o
+    for mn, m in sorted(sys.modules.items()):
+        if mn.split(".")[0] == "wormhole" and m is not None and isinstance(getattr(m, name, None), type):
+            return getattr(m, name)
+    return None
+
+
+def xdecode(v, opaques):
+    if isinstance(v, dict):
+        if "__bytes__" in v:
+            return bytes(v["__bytes__"])
+        if "__tuple__" in v:
+            items = tuple(xdecode(x, opaques) for x in v["__tuple__"])
+            cls = xlookup(v.get("nt")) if v.get("nt") else None
+            if v.get("nt") and cls is None:
+                raise LookupError("namedtuple class %s not found" % v.get("nt"))
+            return cls(*items) if cls is not None else items
+        if "__obj__" in v:
+            oc = xlookup(v["__obj__"]) if v["__obj__"] in REAL_CLASSES else None
+            if isinstance(oc, type):
+                o = object.__new__(xclass(oc))
+                for k, x in v.get("fields", {}).items():
+                    if not k.startswith("__"):
+                        object.__setattr__(o, k, xdecode(x, opaques))
+                if "__state" in v.get("fields", {}):
+                    xset_state(o, oc, v["fields"]["__state"])
+                return o
+            return XFake(v["__obj__"])
+        if "__set__" in v:
+            return set(xdecode(x, opaques) for x in v["members"])
+        if "__map__" in v:
+            return {xdecode(k, opaques): xdecode(x, opaques) for k, x in v["items"]}
+        if "__opaque__" in v:
+            key = (v["__opaque__"], v.get("id"))
+            if key not in opaques:
+                opaques[key] = XFake(v["__opaque__"], opaque=True)
+            return opaques[key]
+        return {k: xdecode(x, opaques) for k, x in v.items()}
+    if isinstance(v, list):
+        return XSeq(xdecode(x, opaques) for x in v)
+    return v
+
+
+def xcanon(v, depth=0):
+    """(ok, canonical form) of a native value; ok is False when the value is outside the compared types"""
+    import collections
+    if depth > 8:
+        return False, None
+    if v is None or isinstance(v, (bool, str)):
+        return True, v
+    if isinstance(v, int):
+        return True, int(v)
+    if isinstance(v, float):
+        return False, {"__float__": v}
+    if isinstance(v, (bytes, bytearray)):
+        return True, {"__bytes__": list(v)}
+    if isinstance(v, tuple):
+        rs = [xcanon(x, depth + 1) for x in v]
+        return all(r[0] for r in rs), {"__tuple__": [r[1] for r in rs]}
+    if isinstance(v, (list, collections.deque)):
+        rs = [xcanon(x, depth + 1) for x in v]
+        return all(r[0] for r in rs), [r[1] for r in rs]
+    if isinstance(v, (set, frozenset)):
+        rs = [xcanon(x, depth + 1) for x in v]
+        return all(r[0] for r in rs), {"__setm__": sorted((r[1] for r in rs), key=json.dumps)}
+    if isinstance(v, dict):
+        rs = [(xcanon(k, depth + 1), xcanon(x, depth + 1)) for k, x in v.items()]
+        return all(a[0] and b[0] for a, b in rs), {"__dictm__": sorted(([a[1], b[1]] for a, b in rs),
+                                                                      key=lambda kv: json.dumps(kv[0]))}
+    return False, {"__other__": type(v).__name__}
+
+
+_WRITE_EVENTS = ("os.remove", "os.rename", "os.mkdir", "os.rmdir", "os.truncate", "os.chmod", "os.chown", "os.link",
+                 "os.symlink", "shutil.", "subprocess.Popen", "os.system", "os.exec", "os.fork", "os.forkpty",
+                 "os.posix_spawn", "os.spawn", "os.kill", "os.killpg", "socket.connect", "socket.bind", "socket.sendto",
+                 "socket.sendmsg", "builtins.input", "os.putenv", "os.unsetenv", "tempfile.", "os.utime", "pty.spawn",
+                 "webbrowser.open", "ftplib.", "smtplib.", "urllib.Request", "http.client.connect")
+_guard = {"on": False}
+
+
+def _audit(event, args):
+    if not _guard["on"]:
+        return
+    if event == "open":
+        mode, flags = (args[1] if len(args) > 1 else None), (args[2] if len(args) > 2 else 0)
+        w = (isinstance(mode, str) and any(ch in mode for ch in "wax+")) or \
+            (isinstance(flags, int) and flags & (os.O_WRONLY | os.O_RDWR | os.O_CREAT | os.O_TRUNC | os.O_APPEND))
+        if w:
+            raise XForbidden("open for writing: %r" % (args[0],))
+        return
+    if event.startswith(_WRITE_EVENTS):
+        raise XForbidden(event)
+
+
+def xcheck_main(path):
+    import inspect
+    import signal
+    job = json.load(open(path))
+    sys.dont_write_bytecode = True
+    target = job["target"]
+    if job.get("lemma"):
+        import textwrap
+        mod = importlib.import_module(job["lemma"]["module"][:-3].replace("/", "."))
+        ns = dict(vars(mod))
+        exec(textwrap.dedent(job["lemma"]["source"]), ns)
+        cls, fn = None, ns[target.split(":")[1]]
+        NS.update(ns)
+    else:
+        mod, cls, fn = resolve(target)
+        NS.update(vars(mod))
+    f = fn.__func__ if isinstance(fn, (staticmethod, classmethod)) else fn
+    if not inspect.isfunction(f) and hasattr(f, "method"):
+        f = f.method          # automat MethodicalOutput / MethodicalInput wrap the real function
+    is_static = isinstance(fn, staticmethod) or cls is None
+    sig = inspect.signature(f)
+    REAL_CLASSES.update(job.get("real_classes", []))
+    MODELLED.update(job.get("modelled", []))
+    MACHINES.update(job.get("machines", {}))
+    is_input = type(fn).__name__ == "MethodicalInput"
+    INPUTS_RECORDED[0] = bool(job.get("inputs_recorded"))
+    if cls is not None and not is_static:
+        cls = xclass(cls)
+    sys.addaudithook(_audit)
+
+    def on_alarm(signum, frame):
+        raise XTimeout()
+    signal.signal(signal.SIGALRM, on_alarm)
+
+    for w in job["witnesses"]:
+        out = {"id": w["id"]}
+        try:
+            opaques = {}
+            XFake.calls = []
+            inputs = w["inputs"]
+            selfobj = None
+            if not is_static:
+                sv = inputs.get("self") or {}
+                selfobj = object.__new__(cls)
+                for k, v in (sv.get("fields", {}) if isinstance(sv, dict) else {}).items():
+                    if not k.startswith("__"):
+                        object.__setattr__(selfobj, k, xdecode(v, opaques))
+                if isinstance(sv, dict) and "__state" in sv.get("fields", {}):
+                    xset_state(selfobj, cls, sv["fields"]["__state"])
+                if not hasattr(selfobj, "_timing"):
+                    try:
+                        object.__setattr__(selfobj, "_timing", XDropped())
+                    except Exception:
+                        pass
+            args = {k: xdecode(v, opaques) for k, v in inputs.items() if k in sig.parameters and k != "self"}
+        except BaseException as e:       # noqa
+            out["skip"] = "cannot-build-input:" + type(e).__name__
+            print("XCHECK " + json.dumps(out), flush=True)
+            continue
+        raised, result = None, None
+        _guard["on"] = True
+        signal.alarm(5)
+        try:
+            try:
+                if inspect.isgeneratorfunction(f):
+                    # a plain generator under contract: run to exhaustion, every yield is recorded like a boundary call
+                    g = f(selfobj, **args) if selfobj is not None else f(**args)
+                    while True:
+                        try:
+                            y = next(g)
+                        except StopIteration as stop:
+                            result = stop.value
+                            break
+                        XFake.calls.append({"on": "self", "m": "<yield>", "nkw": 0,
+                                            "args": [dict(zip(("ok", "v"), xcanon(y)))]})
+                elif is_input and selfobj is not None:
+                    result = getattr(selfobj, f.__name__)(**args)      # through the real machine
+                else:
+                    result = f(selfobj, **args) if selfobj is not None else f(**args)
+            finally:
+                signal.alarm(0)
+                _guard["on"] = False
+        except XForbidden as e:
+            out["skip"] = ("" if str(e).startswith("modelled-") else "forbidden-side-effect:") + str(e).split(":")[0][:40]
+        except XTimeout:
+            out["skip"] = "timeout"
+        except (KeyboardInterrupt, SystemExit) as e:
+            raised = e
+        except BaseException as e:       # noqa
+            raised = e
+        if "skip" not in out:
+            if inspect.isgenerator(result) or inspect.iscoroutine(result):
+                out["skip"] = "returned-generator"
+            elif raised is not None:
+                out["outcome"] = "raise"
+                out["exc"] = type(raised).__name__
+                out["mro"] = [k.__name__ for k in type(raised).__mro__] + \
+                             [k.__module__ + "." + k.__name__ for k in type(raised).__mro__]
+                out["msg"] = str(raised)[:200]
+                if isinstance(raised, XForbidden):
+                    out = {"id": w["id"], "skip": "forbidden-side-effect"}
+            else:
+                out["outcome"] = "return"
+                out["result_ok"], out["result"] = xcanon(result)
+            if "skip" not in out:
+                out["fields"] = {}
+                for k in job.get("fields", []):
+                    if selfobj is not None and hasattr(selfobj, k):
+                        ok, cv = xcanon(getattr(selfobj, k))
+                        out["fields"][k] = {"ok": ok, "v": cv}
+                out["fake_calls"] = list(XFake.calls)[:50]
+                try:
+                    out["state"] = xget_state(selfobj, cls) if selfobj is not None and cls is not None else None
+                except Exception:
+                    out["state"] = None
+        try:
+            line = json.dumps(out)
+        except Exception:
+            line = json.dumps({"id": w["id"], "skip": "result-not-serialisable"})
+        print("XCHECK " + line, flush=True)
+
 
 if __name__ == "__main__":
+    if len(sys.argv) > 2 and sys.argv[1] == "--xcheck":
+        try:
+            xcheck_main(sys.argv[2])
+        except Exception:
+            traceback.print_exc()
+            sys.exit(1)
+        sys.exit(0)
     try:
         main(sys.argv[1])
     except Exception:
